@@ -159,6 +159,8 @@ pub struct Sim {
     /// monitor-only: the application never calls campaign() on a node that is not a voter of
     /// its own configuration
     pub voter_campaign_only: bool,
+    /// no membership change is ever proposed (P-level traces then cover the whole run)
+    pub fixed_conf: bool,
     pub pt: crate::ptrace::PTrace,
 }
 
@@ -194,7 +196,7 @@ pub fn call_kind(c: &Call) -> &'static str {
 
 impl Sim {
     pub fn new(seed: u64, rec: Recorder) -> Sim {
-        Sim { nodes: vec![], net: vec![], rng: Rng::new(seed), rec, next_payload: 1, archive: vec![], max_log: 12, trace: vec![], keep_trace: false, trace_tail: 60, run_id: seed, trace_len: 0, mon: None, halted: false, quiet: false, extra_steps: false, adversarial: false, force_prevote_cq: false, force_sim_snap: false, voter_campaign_only: false, pt: Default::default() }
+        Sim { nodes: vec![], net: vec![], rng: Rng::new(seed), rec, next_payload: 1, archive: vec![], max_log: 12, trace: vec![], keep_trace: false, trace_tail: 60, run_id: seed, trace_len: 0, mon: None, halted: false, quiet: false, extra_steps: false, adversarial: false, force_prevote_cq: false, force_sim_snap: false, voter_campaign_only: false, fixed_conf: false, pt: Default::default() }
     }
 
     /// Random cluster shape and per-node configuration.
@@ -908,7 +910,7 @@ impl Sim {
                 let mut ents = vec![];
                 for _ in 0..k {
                     let mut e = Entry::default();
-                    if self.rng.chance(2, 5) {
+                    if self.rng.chance(2, 5) && !self.fixed_conf {
                         let (ty, data) = match self.random_cc() {
                             CcKind::V1(cc) => (EntryType::EntryConfChange, cc.write_to_bytes().unwrap()),
                             CcKind::V2(cc) => (EntryType::EntryConfChangeV2, cc.write_to_bytes().unwrap()),
@@ -937,7 +939,12 @@ impl Sim {
             840..=864 => {
                 let t = self.leader().filter(|_| !self.rng.chance(1, 4)).unwrap_or(i);
                 let cc = self.random_cc();
-                self.call(t, Call::ProposeConfChange(vec![], cc));
+                if self.fixed_conf {
+                    let p = self.payload();
+                    self.call(t, Call::Propose(vec![], p));
+                } else {
+                    self.call(t, Call::ProposeConfChange(vec![], cc));
+                }
             }
             865..=884 => {
                 let ctx = vec![(self.next_payload % 250) as u8, 1, 2];
